@@ -840,6 +840,10 @@ def rule_sync_inputs(ctx, rule='R09.13'):
 
 
 def run(ctx):
+    from . import pyrules
+    pyrules.rule_internal_flags(ctx, 'R10.11')     # selecting modules never discards an unsynchronised state
+    from . import c19
+    c19.rule_serving_is_readonly(ctx)     # R19.4: saving or copying an unsynchronised simulation does not change it
     rule_sync_inputs(ctx)
     rule_python_snapshot_pickup(ctx)
     rule_exact_finish(ctx)
